@@ -630,6 +630,26 @@ func dischargeBounds0(w *World, c *simCtx, fn *ssa.Function, p *Path, e *Event) 
 					return true, why
 				}
 			}
+			// x[:strings.Index*(x, _)] under a guard that excludes -1: the result is -1 or an offset into x, hence <= len(x)
+			if h.Op == "call" && len(h.A) >= 1 && sameTerm(h.A[0], base) {
+				switch h.S {
+				case "strings.Index", "strings.IndexByte", "strings.IndexRune", "strings.IndexAny", "strings.LastIndex", "strings.LastIndexByte", "strings.LastIndexAny":
+					isH := func(t *T) bool { return sameTerm(stripConv(t), h) }
+					if hasCond(p, func(a *T, v bool) bool {
+						switch a.Op {
+						case "lt":
+							return (!v && isH(a.A[0]) && a.A[1].IsConstVal(0)) || (v && a.A[0].IsConstVal(-1) && isH(a.A[1]))
+						case "le":
+							return (v && a.A[0].IsConstVal(0) && isH(a.A[1])) || (!v && isH(a.A[0]) && a.A[1].IsConstVal(-1))
+						case "eq":
+							return !v && ((isH(a.A[0]) && a.A[1].IsConstVal(-1)) || (isH(a.A[1]) && a.A[0].IsConstVal(-1)))
+						}
+						return false
+					}) {
+						return true, "x[:" + h.S + "(x, _)] under a guard excluding -1: the result is an offset into x"
+					}
+				}
+			}
 			return false, "x[:" + h.Show() + "] without a guard"
 		default:
 			return false, "slice expression with both bounds: no discharge rule"
